@@ -97,6 +97,17 @@ void MJob::Call() noexcept {
 void MJob::Drop() noexcept {
   dropped_at = Stamp();
   drops.fetch_add(1, kRlx);
+  if (child != nullptr) {
+    // what a dropped continuation does: it runs inside Drop(), asks the executor whether it is alive and hands the
+    // next step to it (which is refused and dropped in turn); the executor must be re-entrant here
+    (void)child_to->Alive();
+    child->submitted = true;
+    VF_W(child->payload, "C04");
+    child->payload = child->id + 1;
+    child->sub_call = Stamp();
+    child_to->Submit(*child);
+    child->sub_ret = Stamp();
+  }
 }
 
 enum StopKind { kNoStop = 0, kStop = 1, kSoftStop = 2, kHardStop = 3 };
